@@ -18,7 +18,8 @@ RULE = (
     "threshold 1); distinct by construction, non-trivial = a run of >= 2 and a singleton in the same case. (random) 1-12 "
     "features with seqid/strand/type mixtures in grouped or arbitrary order, shipped and reflexive custom criteria, the same "
     "objects merged twice under the same and other criteria, outputs merged again. (db) generated databases for merge_all "
-    "(both exclude_components) and children_bp."
+    "(both exclude_components) and children_bp, optionally followed by a merge() generator whose merged outputs are written back "
+    "with update() while it is being consumed, and a later merge() whose ids must not be stored yet."
 )
 ASSUMPTIONS = [
     "merge criteria are reflexive (criterion(f, f, ...) is true), as every shipped criterion is",
@@ -413,7 +414,8 @@ class DbLeg(object):
                 sp["start"] += off
                 sp["end"] += off
             return {"specs": specs, "exclude": draw(st.booleans()), "parent_strand": draw(st.sampled_from(["+", "-"])), "offset": off,
-                    "empty_groups": draw(st.sampled_from([False, False, True])), "file_db": draw(st.booleans())}
+                    "empty_groups": draw(st.sampled_from([False, False, True])), "file_db": draw(st.booleans()),
+                    "store_as_you_go": draw(st.booleans())}
 
         return case()
 
@@ -519,9 +521,27 @@ class DbLeg(object):
             for r in after["features"]:
                 if r["id"] in old and r["cols"] != old[r["id"]]["cols"]:
                     return Failure("merge_all changed the columns of %r" % r["id"], sig={"kind": "merge_all-member-cols"})
+        if case.get("store_as_you_go"):
+            # merged features written back one at a time while the merge() generator is still being consumed
+            ordered = sorted(specs, key=lambda s: (s["seqid"], s["ft"], s["strand"], s["start"]))
+            handed = []
+            for o in db.merge(make_features(ordered)):
+                if getattr(o, "children", None):
+                    handed.append(o.id)
+                    db.update([o], make_backup=False)
+            if len(set(handed)) != len(handed):
+                return Failure("one merge() call handed out an id twice: %r" % handed, sig={"kind": "ids"})
+            after = dbsnap.snapshot(db)
+            missing = [i for i in handed if i not in set(r["id"] for r in after["features"])]
+            if missing:
+                return Failure("merged features written back with update() are not stored under their ids: %r" % missing,
+                               sig={"kind": "ids-written-back"})
+            if len(handed) >= 2:
+                ctx.count("merge() generators interleaved with >= 2 updates")
         # a later merge() on the same handle hands out ids that are not stored yet
         stored_ids = set(r["id"] for r in after["features"])
-        later = [o for o in db.merge(make_features(specs)) if getattr(o, "children", None)]
+        later_in = sorted(specs, key=lambda s: (s["seqid"], s["ft"], s["strand"], s["start"])) if case.get("store_as_you_go") else specs
+        later = [o for o in db.merge(make_features(later_in)) if getattr(o, "children", None)]
         clash = [o.id for o in later if o.id in stored_ids]
         if clash:
             return Failure("merge() after merge_all() on the same handle hands out ids that are already stored: %r" % clash,
